@@ -8,6 +8,7 @@ import Driver.C07
 import Driver.C08
 import Driver.C18
 import Driver.C16
+import Driver.C15
 open Driver
 
 def handle (line : String) : String :=
@@ -25,6 +26,7 @@ def handle (line : String) : String :=
   | "c14" :: args => c10 args
   | "c14v" :: args => c14v args
   | "c16" :: args => c16 args
+  | "c15" :: args => c15 args
   | _ => "bad-op"
 
 partial def loop (h : IO.FS.Stream) (out : IO.FS.Stream) : IO Unit := do
